@@ -1,5 +1,6 @@
 import TIV.C11.Proofs
 import TIV.C11.FaultProofs
+import TIV.C11.UrlProofs
 import TIV.C11.Generated
 /-!
 # C11 — property theorems
@@ -372,13 +373,18 @@ example : SrcOK 0 { handles := [{ role := .source }], source := some 0 } ∧
     followed by `close()`), the iterator ends up referencing no image: `_img` is closed (unless it
     is the caller's) and dropped, the generator is gone.  Hence after quiescence every handle the
     library opened or derived is closed or unreferenced (`reachable_only_source`). -/
-theorem opened_closed (src : Src) (v : Variant) (frames : List RP) (e : Ending) (f : Option Nat) (w : World) :
+theorem opened_closed (src : Src) (v : Variant) (frames : List RP) (e : Ending) (f : Option Nat) (w : World)
+    (hb : ∀ x, ((Prog.seq (iterFrames v 0 true frames) (endingProg src frames.length frames.isEmpty e)).run f w).exc
+      = some x → x.bypasses = false) :
     Released ((Prog.seq (iterFrames v 0 true frames) (endingProg src frames.length frames.isEmpty e)).run f w).w := by
-  simp only [Prog.run]
+  simp only [Prog.run] at hb ⊢
   split
   · rename_i x he
-    exact iterFrames_failure_releases v frames 0 true f w (by rw [he]; simp)
-  · exact ending_releases _ _ _ _ _ _
+    simp only [he] at hb
+    exact iterFrames_failure_releases v frames 0 true f w x he (hb x rfl)
+  · rename_i he
+    simp only [he] at hb
+    exact ending_releases _ _ _ _ _ _ hb
 
 /-- … which is the tail of the modelled `it = ImageIterator(…); next(it) × k; <ending>` -/
 theorem opened_closed_is_iterOp (src : Src) (needN nProp : Bool) (v : Variant) (frames : List RP) (e : Ending) :
@@ -431,17 +437,72 @@ example : let o := (drawAnimOp .file true false false .kitty
     iterator; otherwise `opened_closed` applies.  For every source kind, style path, frame list,
     ending and fault plan the iterator references no image afterwards. -/
 theorem opened_closed_iterOp (src : Src) (needN nProp : Bool) (v : Variant) (frames : List RP) (e : Ending)
-    (f : Option Nat) (w : World) (h : Released w) :
+    (f : Option Nat) (w : World) (h : Released w)
+    (hb : ∀ x, ((iterOp src needN nProp v frames e).run f w).exc = some x → x.bypasses = false) :
     Released ((iterOp src needN nProp v frames e).run f w).w := by
-  rw [iterOp_eq]
-  have hb := iterNew_binds src needN nProp f w h
-  simp only [Prog.run] at hb ⊢
+  rw [iterOp_eq] at hb ⊢
+  have hbind := iterNew_binds src needN nProp f w h
+  simp only [Prog.run] at hbind hb ⊢
   split
   · rename_i x he
-    exact hb.2 (by rw [he]; simp)
-  · have := opened_closed src v frames e ((iterNew src needN nProp).run f w).f ((iterNew src needN nProp).run f w).w
+    exact hbind.2 (by rw [he]; simp)
+  · rename_i he
+    simp only [he] at hb
+    have := opened_closed src v frames e ((iterNew src needN nProp).run f w).f ((iterNew src needN nProp).run f w).w
+      (by simpa only [Prog.run] using hb)
     simp only [Prog.run] at this
     exact this
+
+/-- `next_failure_closes` — the handler table of `ImageIterator.__next__`: whatever the frame
+    render raises (an injected failure of any class at any Pillow call, a `RenderError`, …) other
+    than a `BaseException` or an AttributeError about `'_animator'` comes out of `__next__` as
+    that exception — a StopIteration raised inside the generator as RuntimeError —, never as
+    exhaustion, and `self.close()` has run: the iterator references no image any more. -/
+theorem next_failure_closes (first : Bool) (body : Prog) (f : Option Nat) (w : World) (e0 : Exc)
+    (h0 : ((Prog.seq (if first then Prog.act (.hold .gen) else Prog.done) body).run f w).exc = some e0)
+    (hk : e0 ≠ .keyboardInterrupt) (ha : e0 ≠ .attrAnimator) :
+    ((iterNext first body).run f w).exc = some (if e0 = .stopIter then .runtimeError else e0) ∧
+    Released ((iterNext first body).run f w).w :=
+  nextGuard_table _ f w e0 h0 hk ha
+
+/-- non-vacuity: an AttributeError injected at `tobytes()` of the second frame of a kitty iteration
+    comes out as that AttributeError, and the opened file has been closed -/
+example :
+    ((iterOp .file false false .kitty [⟨true, true, true, false, true, true⟩, ⟨true, true, true, false, false, true⟩]
+        .close).run (some 7) ({ faultExc := .attrError } : World)).exc = some .attrError ∧
+    ((iterOp .file false false .kitty [⟨true, true, true, false, true, true⟩, ⟨true, true, true, false, false, true⟩]
+        .close).run (some 7) ({ faultExc := .attrError } : World)).w.isClosed 0 = true := by decide
+
+/-- `url_copies_independent`: for every history of `from_url` (any URLs — the same one twice,
+    different hosts with the same file name, …; succeeding or failing), renders and closes /
+    collections of any of the images made so far: image `k`'s private copy exists **iff** image
+    `k` has not been closed — no other image's creation or closing touches it — and nothing else
+    is in the temp directory. -/
+theorem url_copies_independent (ops : List UOp) :
+    (∀ (k : Nat) (im : UImg), (urlRun ({} : UrlSt) ops).imgs[k]? = some im →
+      (im.name ∈ (urlRun ({} : UrlSt) ops).files ↔ im.closed = false)) ∧
+    (∀ n ∈ (urlRun ({} : UrlSt) ops).files,
+      ∃ im ∈ (urlRun ({} : UrlSt) ops).imgs, im.name = n ∧ im.closed = false) := by
+  obtain ⟨hn, hk, hf⟩ := urlInv_run ops {} urlInv_init
+  refine ⟨?_, ?_⟩
+  · intro k im hget
+    obtain ⟨h1, h2⟩ := hk k im hget
+    rw [h1]; exact h2
+  · intro n hm
+    have hlt : n < (urlRun ({} : UrlSt) ops).imgs.length := by have := hf n hm; omega
+    refine ⟨(urlRun ({} : UrlSt) ops).imgs[n], List.getElem_mem hlt, ?_⟩
+    obtain ⟨h1, h2⟩ := hk n _ (List.getElem?_eq_getElem hlt)
+    exact ⟨h1, h2.mp hm⟩
+
+/-- … hence an image that is open always finds its copy when it renders -/
+theorem url_render_ok (ops : List UOp) (i : Nat) (im : UImg) (h : (urlRun ({} : UrlSt) ops).imgs[i]? = some im)
+    (ho : im.closed = false) : (urlStep (urlRun ({} : UrlSt) ops) (.render i)).2 = "ok" := by
+  have := ((url_copies_independent ops).1 i im h).mpr ho
+  simp [urlStep, h, ho, this]
+
+/-- non-vacuity: the same URL fetched twice, the first image closed — the second still renders -/
+example : (urlTrace ({} : UrlSt) [.open_ 7 true, .open_ 7 true, .close 0, .render 1, .render 0, .close 1]).map Prod.fst
+    = ["ok", "ok", "ok", "ok", "err TermImageError", "ok"] := by decide
 
 /-- `opened_closed`, a whole animated `draw()`: whether size validation, either `Image.open`,
     the `n_frames` probe or any Pillow call of any frame fails, or nothing does — afterwards the
